@@ -394,8 +394,53 @@ def F34():
     return run(datetime(2025, 1, 6)) == run(datetime(2026, 1, 5))
 
 
+def F34b():
+    """C06 (known): project start and clock on the same day, non-midnight start: the computed end is clamped to the clock"""
+    import pjplan.schedule as S
+
+    def run(clock):
+        class FakeDT(datetime):
+            @classmethod
+            def now(cls, tz=None):
+                return clock
+        old = S.datetime
+        S.datetime = FakeDT
+        try:
+            w = WBS()
+            w // Task(1, estimate=1)
+            r = ForwardScheduler(start=datetime(2030, 1, 7, 15, 0)).calc(w)
+            return r.schedule[1].start, r.schedule[1].end
+        finally:
+            S.datetime = old
+    return run(datetime(2030, 1, 7, 9, 0)) == run(datetime(2030, 1, 7, 10, 0))
+
+
+def F34c():
+    """C06 (known): a user-fixed end between two clock values (both before the project start) is rejected or accepted depending on the clock"""
+    import pjplan.schedule as S
+
+    def run(clock):
+        class FakeDT(datetime):
+            @classmethod
+            def now(cls, tz=None):
+                return clock
+        old = S.datetime
+        S.datetime = FakeDT
+        try:
+            w = WBS()
+            w // Task(1, start=datetime(2025, 6, 2), end=datetime(2025, 6, 3), estimate=8)
+            try:
+                r = ForwardScheduler(start=datetime(2030, 1, 7)).calc(w)
+                return 'schedule'
+            except RuntimeError:
+                return 'RuntimeError'
+        finally:
+            S.datetime = old
+    return run(datetime(2025, 1, 6)) == run(datetime(2026, 1, 5))
+
+
 ALL = [F1, F2, F3, F4, F5, F6, F7, F8, F9, F10, F11, F13, F14, F14b, F15, F16, F17, F19, F20, F21, F22, F23, F24,
-       F25, F26, F27, F28, F30, F33, F34]
+       F25, F26, F27, F28, F30, F33, F34, F34b, F34c]
 
 if __name__ == '__main__':
     sel = set(sys.argv[1:])
